@@ -256,6 +256,7 @@ func cliPart(r *mon.Run) {
 	multiPart(r, e)
 	namePart(r, e)
 	skipPart(r, e)
+	mixedPart(r, e)
 	if r.Counter("cli_runs") < 300 {
 		r.Inconclusive("CLI part ran only %d processes", r.Counter("cli_runs"))
 	}
